@@ -571,6 +571,17 @@ func c03ChunkCheck(c c03ChunkCase) *kit.Verdict {
 	var mu sync.Mutex
 	injected := map[string]int{}
 	accepted := map[string]int{}
+	// accepted during the last writes of a socket: the exit delay that follows is short, so under load the receiver may
+	// not get to them before the socket is closed - they may be reported, they need not
+	acceptedLate := map[string]int{}
+	perSocket := map[int]int{}
+	chunkWrites := func(idx int) int {
+		n := c.NRanges - idx*200
+		if n > 200 {
+			n = 200
+		}
+		return n * 2
+	}
 	next := 0
 	var harness string
 	sc := vwire.Scenario{OnWrite: func(w *vwire.World, s *vwire.Socket, wr *vwire.Write) error {
@@ -589,7 +600,14 @@ func c03ChunkCheck(c c03ChunkCase) *kit.Verdict {
 			n := w.InjectOpen(fr)
 			mu.Lock()
 			injected[key]++
-			accepted[key] += n
+			if i == 0 {
+				perSocket[s.Index]++
+			}
+			if perSocket[s.Index] > chunkWrites(s.Index)-4 {
+				acceptedLate[key] += n
+			} else {
+				accepted[key] += n
+			}
 			mu.Unlock()
 		}
 		return nil
@@ -597,7 +615,7 @@ func c03ChunkCheck(c c03ChunkCase) *kit.Verdict {
 	files := &cmdFiles{}
 	defer files.cleanup()
 	args := append([]string{}, strings.Fields(c.Cmd)...)
-	args = append(args, "-i", "lo", "--srcip", c01SrcIP, "--srcmac", c01SrcMAC, "--json", "--exit-delay", "40ms", "--gwmac", c01GwMAC, "-a", files.write("arpcache", ""),
+	args = append(args, "-i", "lo", "--srcip", c01SrcIP, "--srcmac", c01SrcMAC, "--json", "--exit-delay", "150ms", "--gwmac", c01GwMAC, "-a", files.write("arpcache", ""),
 		"-p", renderPorts(ports), "10.9.0.0/31")
 	res := runCmd(cmdRun{Args: args, Seed: c.Seed, World: vwire.NewWorld(sc), Timeout: 120 * time.Second})
 	line := "sx " + clipN(strings.Join(args, " "), 300)
@@ -622,11 +640,11 @@ func c03ChunkCheck(c c03ChunkCase) *kit.Verdict {
 	total := 0
 	for k, n := range got {
 		total += n
-		if n > accepted[k] {
+		if n > accepted[k]+acceptedLate[k] {
 			if injected[k] == 0 {
 				extra = append(extra, fmt.Sprintf("%s x%d (no such frame was ever injected)", k, n))
 			} else {
-				extra = append(extra, fmt.Sprintf("%s x%d (a socket filter accepted such a frame %d times)", k, n, accepted[k]))
+				extra = append(extra, fmt.Sprintf("%s x%d (a socket filter accepted such a frame %d times)", k, n, accepted[k]+acceptedLate[k]))
 			}
 		}
 	}
